@@ -48,7 +48,7 @@ inductive Origin where
 
 structure Entry where
   val    : CVal
-  ttl    : Nat        -- milliseconds left, > 0
+  ttl    : Nat        -- milliseconds left; 0 = PERSISTENT (no TTL: what `SET` / `SETNX` without EX leave behind)
   origin : Origin     -- ghost
   deriving DecidableEq, Repr
 
@@ -86,9 +86,25 @@ def defaultExpiryMs : Nat := 7 * 24 * 3600 * 1000
 def defaultNotFoundExpiryMs : Nat := 60 * 1000
 def safeGapSec : Nat := 5
 
-/-- `newOptions`: a non-positive option falls back to the default. -/
-def Cfg.ofOptions (exp nf : Nat) : Cfg :=
-  { exp := if exp = 0 then defaultExpiryMs else exp, nf := if nf = 0 then defaultNotFoundExpiryMs else nf }
+/-- `cache.Options` as the caller configures them: `none` = the option (`WithExpiry` / `WithNotFoundExpiry`)
+was not given, `some ms` = given with that value — any integer: zero, negative, sub-second, very large. -/
+structure Options where
+  expiry   : Option Int := none
+  notFound : Option Int := none
+  deriving DecidableEq, Repr
+
+/-- the two sanity checks of `newOptions` on the field values (ms): a non-positive value falls back to the
+default (7 days / 1 minute).  Tied to the translated source by `Tie.tie_newOptionsTail`. -/
+def newOptionsMs (e n : Int) : Nat × Nat :=
+  (if e ≤ 0 then defaultExpiryMs else e.toNat, if n ≤ 0 then defaultNotFoundExpiryMs else n.toNat)
+
+/-- `newOptions(opts...)`: `var o Options` (both fields zero), every given option assigns its field, then the
+sanity checks. -/
+def newOptions (o : Options) : Nat × Nat := newOptionsMs (o.expiry.getD 0) (o.notFound.getD 0)
+
+/-- the configuration of a cache built by `cache.New` / `NewNode` with these options (`NewNode` copies
+`o.Expiry` / `o.NotFoundExpiry` into the node: `Tie.tie_newNodeFacts`). -/
+def Cfg.ofOptions (o : Options) : Cfg := { exp := (newOptions o).1, nf := (newOptions o).2 }
 
 /-- `nextDelay` (seconds). -/
 def nextDelay (d : Nat) : Option Nat :=
@@ -97,6 +113,15 @@ def nextDelay (d : Nat) : Option Nat :=
 /-- TTL in seconds written for a base expiry of `eMs` milliseconds when the jitter draw is `j/1000`:
 `⌈ trunc_ns((1 + 0.05 − 2·0.05·j/1000) · e) / 1 s ⌉ = ⌈(10500 − j)·eMs / 10⁷⌉`. -/
 def ttlSec (eMs j : Nat) : Nat := ((10500 - j) * eMs + 9999999) / 10000000
+
+/-- the same computation for a base expiry of `eNs` NANOseconds (the unit of `time.Duration`), in exact
+arithmetic: `time.Duration(factor · base)` truncates to whole nanoseconds, `math.Ceil(d.Seconds())` rounds up
+to seconds.  Agrees with `ttlSec` on whole milliseconds (`Props.ttlSecNs_whole_ms`); it is 0 for `eNs = 1` and a
+draw above 1/2 (`Props.one_nanosecond_expiry_writes_a_persistent_key`). -/
+def ttlSecNs (eNs j : Nat) : Nat := ((10500 - j) * eNs / 10000 + 999999999) / 1000000000
+
+/-- the rounding with fix `fixes/C06-ttl-at-least-one-second.patch` (`ttlSeconds`): never below one second. -/
+def ttlSecondsFixed (eNs j : Nat) : Nat := if ttlSecNs eNs j > 1 then ttlSecNs eNs j else 1
 
 /-- `int(math.Ceil(expire.Seconds()))` for an explicit expiry in ms. -/
 def ceilSec (ms : Nat) : Nat := (ms + 999) / 1000
@@ -109,10 +134,10 @@ def upd (c : Slot → Option Entry) (k : Slot) (e : Option Entry) : Slot → Opt
 def delKeys (c : Slot → Option Entry) (ks : List Slot) : Slot → Option Entry :=
   fun k => if k ∈ ks then none else c k
 
-/-- `FastForward d` (every node). -/
+/-- `FastForward d` (every node): a persistent entry (`ttl = 0`) never goes. -/
 def expire (c : Slot → Option Entry) (d : Nat) : Slot → Option Entry :=
   fun k => match c k with
-    | some e => if e.ttl ≤ d then none else some { e with ttl := e.ttl - d }
+    | some e => if e.ttl = 0 then some e else if e.ttl ≤ d then none else some { e with ttl := e.ttl - d }
     | none => none
 
 /-- `i`-th cache command of the operation fails? -/
@@ -213,7 +238,8 @@ def getCache (s : St) (n : Nat) (k : CKey) (m : List Bool) : St × Got × List C
       else if failAt m 1 then (s, .miss, [⟨.get, n, [k], false⟩, ⟨.del, n, [k], true⟩])
       else ({ s with cache := upd s.cache (n, k) none }, .miss, [⟨.get, n, [k], false⟩, ⟨.del, n, [k], false⟩])
 
-/-- `SetWithExpireCtx` after marshalling: SET key val EX ttl. -/
+/-- `SetWithExpireCtx` after marshalling: SET key val EX ttl.  `ttlS = 0` is what go-redis turns into a plain
+`SET` (`SetexCtx(…, 0)`; for `SetnxExCtx(…, 0)` a plain `SETNX`): the entry is persistent (`ttl = 0`). -/
 def setex (s : St) (k : Slot) (v : CVal) (ttlS : Nat) (o : Origin) (fail : Bool) : St :=
   if fail then s else { s with cache := upd s.cache k (some ⟨v, ttlS * 1000, o⟩) }
 
